@@ -16,7 +16,7 @@ from vf.oracles import jaccard as J
 from vf.oracles import sigdef as S
 
 HOSTILE = ['plain', 'with, comma', 'dq "quoted"', "sq 'single'", ' lead trail ', 'line\nfeed', 'crlf\r\nname', 'tab\there', 'Ünïcödé ß', '日本語の名前',
-           '😀 emoji 𝔘', '‮rtl‬ mark', 'semi;colon', 'back\\slash', 'x' * 120, 'long name ' * 40, '=formula()', '#hash', 'a,b\n"c"', 'percent % s {0}']
+           '😀 emoji 𝔘', '‮rtl‬ mark', 'semi;colon', 'back\\slash', 'x' * 120, 'long name ' * 40, 'cafe\u0301 nfd', '\u212b angstrom \ufb01', 'zero\u200bwidth', '=formula()', '+plus', '@at', '-minus', '#hash', 'a,b\n"c"', 'percent % s {0}']
 CR_NAMES = ['bare\rcr', 'cr at end\r', '\rcr first']
 # names used exactly as they are (no running number appended): text that looks like a number, a boolean or a missing value
 EXACT = ['None', 'null', 'true', 'False', 'NaN', 'inf', '1e5', '0', '1.0', '-1', '007', ' ', 'N/A', '1,5', '""']
